@@ -31,7 +31,8 @@ WD = {'d3': [[0, 1, 1], [0, 0, 1], [1, 1, 0]], 'd3b': [[0, 2, 0], [0, 0, 3], [1,
       'd4b': [[0, 1, 0, 0], [1, 0, 1, 0], [0, 0, 0, 2], [1, 0, 2, 0]]}
 WS = {'s3': [[0, 2, -1], [2, 0, 1], [-1, 1, 0]], 's4': [[0, 2, -1, 0], [2, 0, 3, -2], [-1, 3, 0, 1], [0, -2, 1, 0]], 's4b': [[0, 1, -2, 1], [1, 0, 1, -1], [-2, 1, 0, 2], [1, -1, 2, 0]]}
 W6 = {'u6pairs': [[0, 5, 0, 0, 0, 1], [5, 0, 2, 0, 0, 0], [0, 2, 0, 5, 0, 0], [0, 0, 5, 0, 1, 0], [0, 0, 0, 1, 0, 5], [1, 0, 0, 0, 5, 0]],
-      'u6pairs_b': [[0, 4, 1, 0, 0, 0], [4, 0, 0, 0, 0, 2], [1, 0, 0, 4, 0, 0], [0, 0, 4, 0, 2, 0], [0, 0, 0, 2, 0, 4], [0, 2, 0, 0, 4, 0]]}
+      'u6pairs_b': [[0, 4, 1, 0, 0, 0], [4, 0, 0, 0, 0, 2], [1, 0, 0, 4, 0, 0], [0, 0, 4, 0, 2, 0], [0, 0, 0, 2, 0, 4], [0, 2, 0, 0, 4, 0]],
+      'u6pairs_c': [[0, 4, 1, 0, 0, 0], [4, 0, 0, 0, 0, 2], [1, 0, 0, 4, 0, 0], [0, 0, 4, 0, 1, 0], [0, 0, 0, 1, 0, 2], [0, 2, 0, 0, 2, 0]]}
 ORDERS6 = [[0, 1, 2, 3, 4, 5], [5, 4, 3, 2, 1, 0], [2, 5, 0, 3, 1, 4], [4, 1, 3, 0, 5, 2]]
 STARTS = {3: [None, [1, 1, 1], [5, 2, 5]], 4: [None, [1, 1, 1, 1], [1, 1, 2, 2], [7, 3, 3, 7]]}
 
@@ -68,7 +69,7 @@ def cases(tier, seed, prop='C02'):
         # (all orders on the aggregated levels)
         for wn in W6:
             add('community_louvain', wn, W6[wn], B='modularity', orders6=True)
-            for st in ([3, 3, 1, 1, 2, 2], [2, 2, 3, 3, 1, 1], [1, 2, 2, 3, 3, 1]):
+            for st in ([3, 3, 1, 1, 2, 2], [1, 1, 2, 2, 3, 4], [1, 2, 3, 3, 4, 4]):
                 add('community_louvain', wn, W6[wn], B='modularity', orders6=True, start=st)
             add('modularity_louvain_und', wn, W6[wn], orders6=True)
         for c in cs: c['budget_s'] = 300
